@@ -20,15 +20,25 @@ structure DecObs where
   head : Bool           -- IsPartitionHead
   deriving DecidableEq, Repr
 
+def picVal : Option (Bool × UInt16) → UInt16
+  | some (_, v) => v
+  | none => 0
+def tidVal : Option (UInt8 × Bool) → UInt8
+  | some (t, _) => t
+  | none => 0
+def yVal : Option (UInt8 × Bool) → UInt8
+  | some (_, y) => bit y 1
+  | none => 0
+
 /-- what RFC 7741 says a receiver gets out of descriptor `d` -/
 def expected (d : Descriptor) : VP8Packet :=
   { X := bit d.x 1, N := bit d.n 1, S := bit d.s 1, PID := d.pid,
     I := bit d.picId.isSome 1, L := bit d.tl0.isSome 1, T := bit d.tid.isSome 1,
     K := bit d.keyidx.isSome 1,
-    PictureID := match d.picId with | some (_, v) => v | none => 0,
+    PictureID := picVal d.picId,
     TL0PICIDX := d.tl0.getD 0,
-    TID := match d.tid with | some (t, _) => t | none => 0,
-    Y := match d.tid with | some (_, y) => bit y 1 | none => 0,
+    TID := tidVal d.tid,
+    Y := yVal d.tid,
     KEYIDX := d.keyidx.getD 0 }
 
 /-- input: descriptor, the bytes following it, a cut position `k`, and the wire bytes produced by
